@@ -73,7 +73,7 @@ func lateDeadline(evs []event, w, sl int64, listen bool) bool {
 			if listen && tretSet && tret+sl < e.a {
 				return true
 			}
-			if haveOb && e.a >= from {
+			if haveOb && e.a+sl >= from+w { // a signal that can be the strobe's own
 				if listen && deadline < e.a {
 					return true
 				}
@@ -259,7 +259,7 @@ func runCase(c Case) result {
 		}
 	}
 	// keep observing for a window plus generous slack, then stop
-	time.Sleep(window + 100*time.Millisecond)
+	time.Sleep(window + 180*time.Millisecond)
 	if !c.Listen {
 		select {
 		case <-co.Signals():
@@ -279,7 +279,7 @@ func runCase(c Case) result {
 	co.Terminate()
 
 	// Slack: at least 15 ms. If the sleep canary or the reference path saw more
-	// than 15 ms of scheduling latency the machine is overloaded: deadlines are
+	// than 40 ms of scheduling latency the machine is overloaded: deadlines are
 	// then not checked at all (slack 10 s), only the facts that do not depend on
 	// timing remain.
 	jitter := maxJitter.Load()
@@ -287,7 +287,7 @@ func runCase(c Case) result {
 		jitter = l
 	}
 	slack := int64(15000)
-	overloaded := jitter > 15000
+	overloaded := jitter > 40000
 	if overloaded {
 		slack = 10000000
 	} else if j := 3*jitter + 10000; j > slack {
@@ -312,8 +312,10 @@ func runCase(c Case) result {
 		tags = append(tags, "slack:overloaded-no-deadline-claims")
 	case slack == 15000:
 		tags = append(tags, "slack:15ms")
-	default:
+	case slack <= 55000:
 		tags = append(tags, "slack:16-55ms")
+	default:
+		tags = append(tags, "slack:56-130ms")
 	}
 	prevGap := ""
 	for _, st := range c.Steps {
@@ -344,7 +346,7 @@ const header = "From Coq Require Import List Arith NArith.\nImport ListNotations
 func main() {
 	cfg := hx.Parse()
 	w := hx.NewWriter(cfg, header, "ccase", "coalescer_failures", 250)
-	w.Rule = "a case = one scenario run against the real Coalescer, recorded as a timed history (microseconds): strobe call/return, signal received, channel polled empty, Terminate call/return, end of observation; slack = max(15 ms, 3 x measured scheduling latency + 10 ms), or no deadline claims at all when that latency (sleep canary and a reference timer->goroutine->channel->goroutine path run alongside) exceeded 15 ms; distinct = distinct histories; non-trivial = at least two strobes and at least one signal"
+	w.Rule = "a case = one scenario run against the real Coalescer, recorded as a timed history (microseconds): strobe call/return, signal received, channel polled empty, Terminate call/return, end of observation; slack = max(15 ms, 3 x measured scheduling latency + 10 ms), or no deadline claims at all when that latency (sleep canary and a reference timer->goroutine->channel->goroutine path run alongside) exceeded 40 ms; distinct = distinct histories; non-trivial = at least two strobes and at least one signal"
 
 	runBatch := func(cases []Case, origin string) {
 		const par = 16
@@ -449,8 +451,31 @@ func main() {
 			}
 		}
 	}
+	// Slow consumer: the first signal is left in the channel for longer than a
+	// window, a strobe arrives meanwhile, then the consumer takes the old
+	// signal -- early in the strobe's window (the strobe's own signal must then
+	// become available) or only after it (the strobe's signal was legitimately
+	// dropped into the full slot).
+	slowWindows := []int{120000, 180000}
+	if cfg.Thorough() {
+		slowWindows = []int{60000, 100000, 140000, 200000}
+	}
+	for rep := 0; rep < 2; rep++ {
+		for _, win := range slowWindows {
+			for _, leave := range []float64{1.5, 2.5} {
+				for _, drain := range []float64{0.1, 0.25, 1.6} {
+					f := func(x float64) int { return int(x * float64(win)) }
+					grid = append(grid,
+						Case{WindowUs: win, Steps: []Step{{K: "S", Gap: 2000}, {K: "S", Gap: f(leave)},
+							{K: "P", Gap: f(drain)}, {K: "P", Gap: win + 180000}}},
+						Case{WindowUs: win, Steps: []Step{{K: "S", Gap: 2000}, {K: "S", Gap: f(leave)},
+							{K: "P", Gap: f(drain)}, {K: "S", Gap: f(0.2)}, {K: "P", Gap: win + 180000}}})
+				}
+			}
+		}
+	}
 	runBatch(grid, "exhaustive")
-	w.Extra["exhaustive_scope"] = fmt.Sprintf("every strobe pattern of 1..4 strobes with gaps from {0.3w, 0.6w, 1.8w, 3w}, windows %v us, with a listening consumer and with polling only", windows)
+	w.Extra["exhaustive_scope"] = fmt.Sprintf("every strobe pattern of 1..4 strobes with gaps from {0.3w, 0.6w, 1.8w, 3w}, windows %v us, with a listening consumer and with polling only; plus slow-consumer patterns (first signal left buffered for 1.5w/2.5w, a strobe meanwhile, the old signal taken 0.1w/0.25w/1.6w after that strobe, a look at the channel after window + 180 ms), windows %v us", windows, slowWindows)
 
 	// Seeded random scenarios.
 	nRandom := 420
@@ -487,6 +512,11 @@ func main() {
 				gap = r.Intn(3 * win)
 			}
 			c.Steps = append(c.Steps, Step{K: "S", Gap: gap})
+			if !c.Listen && terminateAt < 0 && r.Intn(4) == 0 {
+				// slow consumer: leave the signal buffered, strobe again, drain, look
+				c.Steps = append(c.Steps, Step{K: "S", Gap: win + 40000 + r.Intn(win)},
+					Step{K: "P", Gap: r.Intn(win / 3)}, Step{K: "P", Gap: win + 180000})
+			}
 			if !c.Listen && r.Intn(3) == 0 {
 				c.Steps = append(c.Steps, Step{K: "P", Gap: r.Intn(2*win + 40000)})
 			}
